@@ -78,6 +78,8 @@ def main(tier, replay):
     rng.shuffle(base)
     if tier == "quick":
         base = base[:45]
+    # always present: pessimistic transactions whose primary sits in the 2nd+ batch of its region (small batch limit)
+    base += [(sh, mode, True) for sh in txnlab.late_primary_shapes() for mode in ("2pc", "async", "1pc")]
     base = txnlab.with_fallbacks(base)
     cov["fallback_shapes"] = sum(1 for b in base if b[-1])
     probes = [txnlab.mk_scenario(f"p{i}", sh, mode, pess, **txnlab.fbkw(fb)) for i, (sh, mode, pess, fb) in enumerate(base)]
@@ -143,6 +145,46 @@ def main(tier, replay):
                 v.violation({"kind": "property-oracle", "scenario": sc, "violated": bad, "told": r.get("told"), "audit": r.get("audit"),
                              "trace_tail": [e for e in r.get("trace", []) if e["kind"] != "tso" and e.get("client") == "c1"][-40:]})
         traces.append((sc, r))
+    # directed programs: the FIRST lock call of a pessimistic transaction fails on its single key (key exists / lock held by
+    # another transaction, no wait), the transaction goes on with other keys and commits: the primary must be re-chosen among
+    # the keys it really locks, and Commit may answer success only after the commit of that primary was acknowledged
+    progs = []
+    for i, (mode, splits) in enumerate([(m, sp) for m in ("2pc", "async", "1pc", "async1pc") for sp in ([], ["k2"], ["k3"], ["k2", "k3"])]):
+        for first in ("insert", "locked"):
+            steps = [{"t": "t1", "op": "begin"}]
+            txns = {"t1": {"mode": mode, "pessimistic": True, "ops": []}}
+            if first == "insert":
+                steps.append({"t": "t1", "op": "insert", "k": "k1", "v": "x"})
+            else:
+                txns["t2"] = {"mode": "2pc", "pessimistic": True, "ops": []}
+                steps = [{"t": "t2", "op": "begin"}, {"t": "t2", "op": "lock", "ks": ["k1"], "wait": -1}] + steps + [{"t": "t1", "op": "lock", "ks": ["k1"], "wait": -1}]
+            steps += [{"t": "t1", "op": "set", "k": "k2", "v": "y"}, {"t": "t1", "op": "set", "k": "k3", "v": "z"}, {"t": "t1", "op": "commit"}]
+            if first == "locked":
+                steps.append({"t": "t2", "op": "rollback"})
+            steps.append({"t": "t1", "op": "sleep", "wait": 250})
+            progs.append({"id": f"ffl{i}-{mode}-{first}", "backend": "unistore", "splits": splits, "preload": [{"k": "k1", "v": "o"}, {"k": "k2", "v": "o2"}],
+                          "txn": {"mode": "2pc", "ops": []}, "txns": txns, "program": steps, "keys": ["k1", "k2", "k3"], "black_from": -1})
+    for sc, r in zip(progs, txnlab.run_scenarios(exe, progs)):
+        if r.get("fatal"):
+            continue
+        bad = []
+        t1 = (r.get("txns") or {}).get("t1") or {}
+        S = t1.get("start")
+        tr = r.get("trace", [])
+        sends = {e.get("req"): e for e in tr if e["kind"] == "send"}
+        told = next((e for e in tr if e["kind"] == "told" and e["f"].get("start") == S and (e["f"].get("finish") or "commit") == "commit"), None)
+        pws = [e for e in tr if e["kind"] == "send" and e.get("cmd") == "Prewrite" and e["f"].get("start") == S]
+        if told is not None and told["f"].get("res") == "ok" and pws and not any(e["f"].get("async") or e["f"].get("onepc") for e in pws):
+            prim = pws[0]["f"].get("primary")
+            acked = any(e["kind"] == "reply" and e.get("cmd") == "Commit" and e["seq"] < told["seq"] and not e["f"].get("error") and "regionerr" not in e["f"] and "rpc_err" not in e["f"]
+                        and (sends.get(e.get("req")) or {}).get("f", {}).get("start") == S and prim in ((sends.get(e.get("req")) or {}).get("f", {}).get("keys") or [])
+                        for e in tr)
+            if not acked:
+                bad.append("Commit returned success before the commit of the primary named by its prewrites was acknowledged (2PC)")
+        if bad:
+            v.violation({"kind": "property-oracle", "scenario": sc, "violated": bad, "told": t1.get("result")})
+        traces.append((sc, r))
+    cov["first_lock_failed_programs"] = len(progs)
     cov.update(run_acceptor(traces, v, PID, exe=exe))
     if not gate["ok"]:
         v.violation({"kind": "proof", "theorem_or_file": gate["problems"], "what": "Coq obligations no longer check"}, has_input=False)
